@@ -75,7 +75,13 @@ fn main() {
         start: Instant::now(),
         current: current.clone(),
         sub,
+        corpus: arg(&args, "--corpus").map(|s| s.to_string()),
     };
+    if let Some(p) = arg(&args, "--dump") {
+        let n: u64 = arg(&args, "--dump-n").and_then(|s| s.parse().ok()).unwrap_or(1000);
+        engines::dump(&ctx, n, p);
+        return;
+    }
     install_panic_hook();
     let hang_ms = arg(&args, "--hang-ms").and_then(|s| s.parse().ok()).unwrap_or(20_000);
     start_watchdog(current, hang_ms);
